@@ -335,6 +335,53 @@ descend:
 // isFreshSlice reports whether the slice/map variable v, declared inside lit, only ever holds storage created inside
 // lit: every value assigned to it there is make(…), a composite literal, nil, append(v, …) or a re-slice of v itself.
 func isFreshSlice(w *world, lit *ast.FuncLit, v *types.Var) bool {
+	return isFreshIn(w, lit.Body, v, false, 0)
+}
+
+// passThrough reports whether the package-level function called by `call` hands back, for some parameter k, only
+// storage of that parameter (the parameter itself, append(param, …), a re-slice of it) or storage it created itself –
+// `q = pushAll(q, n)` is then as good as `q = append(q, …)`.  Returns the index k, or -1.
+func passThrough(w *world, call *ast.CallExpr, depth int) int {
+	if depth > 3 {
+		return -1
+	}
+	id, ok := unparen(call.Fun).(*ast.Ident)
+	if !ok {
+		return -1
+	}
+	fn, ok := w.info.Uses[id].(*types.Func)
+	if !ok || fn.Pkg() != w.pkg {
+		return -1
+	}
+	var decl *ast.FuncDecl
+	for _, f := range w.art.Syntax {
+		for _, d := range f.Decls {
+			if fd, ok := d.(*ast.FuncDecl); ok && fd.Recv == nil && fd.Body != nil && w.info.Defs[fd.Name] == fn {
+				decl = fd
+			}
+		}
+	}
+	if decl == nil || decl.Type.Results == nil || len(decl.Type.Results.List) != 1 || len(decl.Type.Results.List[0].Names) != 0 {
+		return -1
+	}
+	k := 0
+	for _, field := range decl.Type.Params.List {
+		for _, nm := range field.Names {
+			pv, _ := w.info.Defs[nm].(*types.Var)
+			if pv != nil {
+				if _, isSlice := pv.Type().Underlying().(*types.Slice); isSlice && isFreshIn(w, decl.Body, pv, true, depth+1) {
+					return k
+				}
+			}
+			k++
+		}
+	}
+	return -1
+}
+
+// isFreshIn: inside `body`, every value assigned to v (and, with returns=true, every value returned) is make(…), a
+// composite literal, nil, v itself, append(v, …), a re-slice of v, or a pass-through call on such a value.
+func isFreshIn(w *world, body *ast.BlockStmt, v *types.Var, returns bool, depth int) bool {
 	ok := true
 	var fresh func(e ast.Expr) bool
 	fresh = func(e ast.Expr) bool {
@@ -354,11 +401,20 @@ func isFreshSlice(w *world, lit *ast.FuncLit, v *types.Var) bool {
 					return fresh(x.Args[0])
 				}
 			}
+			if k := passThrough(w, x, depth); k >= 0 && k < len(x.Args) {
+				return fresh(x.Args[k])
+			}
 		}
 		return false
 	}
-	ast.Inspect(lit.Body, func(n ast.Node) bool {
+	ast.Inspect(body, func(n ast.Node) bool {
 		switch n := n.(type) {
+		case *ast.FuncLit:
+			return !returns // return statements of nested literals are not the function's
+		case *ast.ReturnStmt:
+			if returns && (len(n.Results) != 1 || !fresh(n.Results[0])) {
+				ok = false
+			}
 		case *ast.AssignStmt:
 			for i, l := range n.Lhs {
 				id, isId := unparen(l).(*ast.Ident)
